@@ -3,8 +3,8 @@ from . import hashing as H
 
 
 def check(ck):
-    H.check_update_protocol(ck, "C13.R1")
-    H.check_did_change(ck, "C13.R2")
-    H.check_resolver_closures(ck, "C13.R3")
-    H.check_field_call_lint(ck, "C13.R4")
-    H.check_version_taint(ck, "C13.R5")
+    ck.run(H.check_update_protocol, ck, "C13.R1")
+    ck.run(H.check_did_change, ck, "C13.R2")
+    ck.run(H.check_resolver_closures, ck, "C13.R3")
+    ck.run(H.check_field_call_lint, ck, "C13.R4")
+    ck.run(H.check_version_taint, ck, "C13.R5")
